@@ -123,7 +123,7 @@ def out_check(c, cur, st):
         v = int(cur)
         if c == '0': return str(v) == st or cur == st
         if c == '2': return True
-        if c == '3': return abs(v % 1000 - int(st) % 1000) <= 400          # the tolerance checker of the harness (OutNear)
+        if c in ('3', '4'): return abs(v % 1000 - int(st) % 1000) <= (400 if c == '3' else 100)          # the tolerance checkers of the harness (OutNear(400), OutNear(100))
     except ValueError:
         pass
     return None
@@ -330,6 +330,19 @@ def run_oracles(prog, meta, sessions):
             elif s.fresh_ops is not None and all('abort' not in o for o in s.fresh_ops) and s.ops != s.fresh_ops:
                 d = next((a, b) for a, b in zip(s.ops, s.fresh_ops) if a != b)
                 out.append(('C03', 'stale-output-after-bottom-up', '%s: %r but from scratch %r' % (where, d[0], d[1])))
+
+        # ---- C04: after a task has executed, the readers of what it wrote are checked -- never the task itself against its own fresh write
+        if is_bu:
+            cur_x = None; in_w = False
+            for e in s.events:
+                f = e.split()
+                if f[0] == 'XE': cur_x = f[1]; in_w = False
+                elif f[0] == 'SBRS' and cur_x is not None: in_w = True
+                elif f[0] == 'SBRE': in_w = False
+                elif f[0] in ('SBTE', 'XS', 'BE'): cur_x = None; in_w = False
+                elif f[0] == 'CDS' and in_w and cur_x is not None and f[1] == cur_x:
+                    out.append(('C04', 'own-write-checked', '%s: after task %s was executed, its own dependency on a resource it has just written was checked (it could reschedule itself): only tasks that READ the resource are affected by the write' % (where, cur_x)))
+                    break
 
         # ---- C04: a task is scheduled only directly after a check of one of ITS OWN dependencies that did not say "consistent"
         # (the event before `ST t` is the end of a check of t: CDE t .. inc|err, or CQE t .. 1)
@@ -603,7 +616,7 @@ def run_oracles(prog, meta, sessions):
             elif f[0] == 'CTE' and int(f[1]) in task_out:
                 c, st, inc = int(f[2]), int(f[3]), f[4] == '1'
                 o = task_out[int(f[1])]
-                exp = (o != st) if c == 0 else ((o % 2) != st if c == 1 else (abs(o % 1000 - st % 1000) > 400 if c == 3 else False))
+                exp = (o != st) if c == 0 else ((o % 2) != st if c == 1 else (abs(o % 1000 - st % 1000) > (400 if c == 3 else 100) if c in (3, 4) else False))
                 if exp != inc:
                     out.append(('C09', 'check-task-verdict', '%s: require dependency on task %s (checker %d, stamp %d) was reported %s although its output is %d' % (where, f[1], c, st, 'inconsistent' if inc else 'consistent', o)))
 
